@@ -693,7 +693,7 @@ func TestConcurrentParse(t *testing.T) {
 		v, sp := refValid(s)
 		ref[s] = verdict{v, sp}
 	}
-	rounds := h.N(300, 3000)
+	rounds := h.N(20000, 200000)
 	var mu sync.Mutex
 	bad := ""
 	pv := h.Concurrently(8, func(g int) {
